@@ -146,3 +146,141 @@ func vhC08SmallBuffers() {
 		vAssert("request-cookies-bounded", n <= len(b)+2)
 	}
 }
+
+// ---- response heads, and "no waiting once the head is complete" ----------
+
+func c09RespHead() []byte {
+	hl := vParam("holeLen", 2)
+	var h []byte
+	switch vChoose("template", 5) {
+	case 0:
+		h = append([]byte("HTTP/1.1 200 OK\r\nX"), c05Sym("hole", hl)...)
+		h = append(h, ": v"...)
+	case 1:
+		h = append([]byte("HTTP/1.1 200 OK\r\nA: b"), c05Sym("hole", hl)...)
+	case 2:
+		h = append([]byte("HTTP/1.1 200 OK\r\nContent-Length: "), c05Sym("hole", hl)...)
+	case 3:
+		h = append([]byte("HTTP/1.1 "), c05Sym("hole", hl)...)
+		h = append(h, " OK\r\nA: b"...)
+	case 4:
+		h = append([]byte("HTTP/1.1 200 OK\r\nA: a"), c05Sym("hole", hl)...)
+		h = append(h, "B: c"...)
+	}
+	end := 0
+	if vKnown("C09-lf-crlf-terminator") {
+		end = [3]int{0, 1, 3}[vChoose("end", 3)]
+	} else {
+		end = vChoose("end", len(c09Ends))
+	}
+	return append(h, c09Ends[end]...)
+}
+
+type c09RespOut struct {
+	ok     bool
+	rest   int
+	status int
+	cl     int
+	nhdr   int
+	a      string
+	close  bool
+}
+
+func c09ReadResp(stream []byte) c09RespOut {
+	var h ResponseHeader
+	r := bufio.NewReaderSize(bytes.NewReader(stream), 128)
+	err := h.Read(r)
+	var o c09RespOut
+	o.ok = err == nil
+	if err == nil {
+		rest, _ := io.ReadAll(r)
+		o.rest = len(rest)
+		o.status = h.StatusCode()
+		o.cl = h.ContentLength()
+		o.nhdr = h.Len()
+		o.a = string(h.Peek("A"))
+		o.close = h.ConnectionClose()
+	}
+	return o
+}
+
+// vhC09ResponseHead: the differential of vhC09RequestHead for response heads.
+func vhC09ResponseHead() {
+	H := c09RespHead()
+	s1 := c05Sym("s1", vParam("contLen", 2))
+	s2 := c05Sym("s2", vParam("contLen", 2))
+	o1 := c09ReadResp(append(append([]byte(nil), H...), s1...))
+	o2 := c09ReadResp(append(append([]byte(nil), H...), s2...))
+	vAssert("acceptance-independent-of-continuation", o1.ok == o2.ok)
+	if o1.ok && o2.ok {
+		vAssert("fields-independent-of-continuation",
+			o1.status == o2.status && o1.cl == o2.cl && o1.nhdr == o2.nhdr && o1.a == o2.a && o1.close == o2.close)
+		vAssert("consumed-independent-of-continuation", o1.rest-len(s1) == o2.rest-len(s2))
+	}
+}
+
+// c09SegReader hands out the head in segments and counts the Read calls made
+// after the whole head has been delivered (each of those is the parser waiting
+// for input that an open connection may never send).
+type c09SegReader struct {
+	segs       [][]byte
+	next, off  int
+	afterEnd   int
+}
+
+func (r *c09SegReader) Read(p []byte) (int, error) {
+	if r.next >= len(r.segs) {
+		r.afterEnd++
+		return 0, io.EOF
+	}
+	n := copy(p, r.segs[r.next][r.off:])
+	r.off += n
+	if r.off >= len(r.segs[r.next]) {
+		r.next++
+		r.off = 0
+	}
+	return n, nil
+}
+
+// vhC09NoWaiting: a complete head (request or response) arrives in one, two
+// or three reads, the cuts falling inside its last five bytes; the parser
+// must answer without asking the connection for more.
+func vhC09NoWaiting() {
+	isResp := vBool("response")
+	var H []byte
+	if isResp {
+		H = c09RespHead()
+	} else {
+		H = c09ReqHead()
+	}
+	if vKnown("C09-lf-crlf-terminator") {
+		// listed finding: a blank line that is not spelled CRLF CRLF is only
+		// recognised when a CRLF CRLF follows somewhere later, so such a head
+		// waits for more input; the check keeps to heads ending in CRLF CRLF
+		vAssume(len(H) >= 4 && string(H[len(H)-4:]) == "\r\n\r\n")
+	}
+	n := len(H)
+	rd := &c09SegReader{}
+	switch vChoose("reads", 3) {
+	case 0:
+		rd.segs = [][]byte{H}
+	case 1:
+		c1 := n - 1 - vChoose("cut", 4)
+		rd.segs = [][]byte{H[:c1], H[c1:]}
+	case 2:
+		c2 := n - 1 - vChoose("cut2", 3)
+		c1 := c2 - 1 - vChoose("cut1", 2)
+		rd.segs = [][]byte{H[:c1], H[c1:c2], H[c2:]}
+	}
+	r := bufio.NewReaderSize(rd, 128)
+	var err error
+	if isResp {
+		var h ResponseHeader
+		err = h.Read(r)
+	} else {
+		var h RequestHeader
+		err = h.Read(r)
+	}
+	_ = err
+	vAssert("complete-head-is-answered-without-waiting", rd.afterEnd == 0)
+}
